@@ -73,6 +73,15 @@ class AnyHolder:
 
 
 @dataclass
+class AnyNil:
+    """the same with NILLABLE fields: an empty element binds to None, not to the empty string"""
+
+    v: Optional[object] = field(default=None, metadata={"type": "Element", "nillable": True})
+    w: List[object] = field(default_factory=list, metadata={"type": "Element", "nillable": True})
+    rest: List[object] = field(default_factory=list, metadata={"type": "Wildcard", "namespace": "##other", "nillable": True})
+
+
+@dataclass
 class WildBoth:
     """A ##other element wildcard and a ##other attribute wildcard next to a typed element (C10 / C11: the verdict
     for one qualified name says nothing about the same local name in another namespace)."""
